@@ -957,6 +957,28 @@ struct World
         if (ma.parent != nullptr && ma.parent->ch.back().get() != &ma)
           ctx.probe("subtree_traversal_with_later_siblings");
       }
+      // the iterator is a forward iterator: a copy taken in the middle of a traversal and advanced
+      // on its own (std::distance, std::next, any multi-pass algorithm) must not disturb the original
+      {
+        std::vector<long> want, got;
+        mpre(ma, want);
+        auto const trav = fcppt::container::tree::make_pre_order(ca);
+        std::size_t step = 0;
+        for (auto it = trav.begin(); it != trav.end() && got.size() <= want.size(); ++it, ++step)
+        {
+          auto copy = it;
+          std::size_t rest = 0;
+          for (; copy != trav.end() && rest <= want.size(); ++copy)
+            ++rest;
+          SIM_CHECK(step < want.size() && rest == want.size() - step, "pre_order", "a copy of the iterator taken after " + std::to_string(step) + " steps reaches the end after " + std::to_string(rest) + " more nodes, the model has " + std::to_string(want.size() - std::min(step, want.size())) + " left (subtree of " + std::to_string(ma.id) + ")");
+          auto next = it;
+          next++;
+          (void)next;
+          got.push_back((*it).value().id());
+        }
+        SIM_CHECK(want == got, "pre_order", "multi-pass traversal of the subtree of " + std::to_string(ma.id) + ": the original iterator was disturbed by its copies");
+        ctx.probe("pre_order_multi_pass");
+      }
       // mutable pre_order traversal over the subtree
       {
         std::vector<long> want, got;
